@@ -129,21 +129,34 @@ class Reread(object):
         expectations apply to the last step.  Returns the last answer."""
         R, chk, w = self.R, self.chk, self.world
         replay = {'kind': None, 'label': label, 'old_file': texts[0], 'new_file': texts[-1]}
-        if len(texts) > 2:
-            replay['edit_sequence'] = list(texts)
         self.n += 1
+        texts = [t if isinstance(t, tuple) else (t, None) for t in texts]
+        replay['old_file'] = texts[0][0]
+        replay['new_file'] = texts[-1][0]
+        if len(texts) > 2:
+            replay['edit_sequence'] = [_show(t[0]) + ('   <-- broken on purpose: %s' % t[1] if t[1] else '') for t in texts]
         try:
-            w.boot(texts[0])
-        except ValueError as e:
-            replay.update(kind='generator produced an old file the reader rejects', error=str(e))
+            w.boot(texts[0][0])
+        except BaseException as e:
+            replay.update(kind='generator produced an old file the reader rejects', error=repr(e))
             self.violation(replay, nofail=True)
             return None
         r = None
-        for k, new_text in enumerate(texts[1:]):
+        for k, (new_text, broken) in enumerate(texts[1:]):
             last = k == len(texts) - 2
-            rp = dict(replay, new_file=new_text, step=k + 1)
-            r = self._step(new_text, rp, label, expect_triple if last else None, target if last else None,
-                           expect_target if last else None)
+            rp = dict(replay, new_file=_show(new_text), step=k + 1)
+            try:
+                if broken:
+                    r = self._broken_step(new_text, rp, label, must_fail=broken.startswith('!'))
+                    if r[0] not in ('fault', 'ok'):
+                        break
+                    continue
+                r = self._step(new_text, rp, label, expect_triple if last else None, target if last else None,
+                               expect_target if last else None)
+            except BaseException as e:
+                rp.update(kind='%s escaped from the implementation during a reread' % type(e).__name__, error=repr(e)[:500])
+                self.violation(rp)
+                break
             if r is None or r[0] != 'ok':
                 break
         return r
@@ -278,16 +291,25 @@ class Reread(object):
     def corrupt(self, old_text, bad_bytes, label, must_fail):
         """reread of a corrupt file: CANT_REREAD and nothing changed (or, when the corruption
         happens to be harmless, a normal answer)."""
+        self.n += 1
+        replay = {'label': label, 'old_file': old_text, 'new_file': _show(bad_bytes)}
+        try:
+            self.world.boot(old_text)
+            return self._broken_step(bad_bytes, replay, label, must_fail)
+        except BaseException as e:
+            replay.update(kind='%s escaped from the implementation during a reread' % type(e).__name__, error=repr(e)[:500])
+            self.violation(replay)
+            return ('exc', type(e).__name__, '')
+
+    def _broken_step(self, bad_bytes, replay, label, must_fail):
         from supervisor.xmlrpc import Faults
         chk, w = self.chk, self.world
-        self.n += 1
-        w.boot(old_text)
         before = w.snapshot()
         w.write(bad_bytes)
         r = w.reload()
-        replay = {'label': label, 'old_file': old_text,
-                  'new_file_bytes': None if bad_bytes is None else list(bad_bytes if isinstance(bad_bytes, bytes)
-                                                                        else bad_bytes.encode('utf-8'))}
+        replay = dict(replay)
+        replay['new_file_bytes'] = None if bad_bytes is None else list(bad_bytes if isinstance(bad_bytes, bytes)
+                                                                       else bad_bytes.encode('utf-8'))
         if r[0] == 'fault' and r[1] == Faults.CANT_REREAD:
             after = w.snapshot()
             if after != before:
@@ -308,11 +330,24 @@ class Reread(object):
                 self.violation(replay)
             chk.dist('corrupt:harmless')
         else:
-            replay.update(kind='corrupt file not answered with CANT_REREAD (through the XML-RPC handler: %r)' % (r[1:],),
-                          answer=repr(r), new_file=bad_bytes if isinstance(bad_bytes, str) else None)
+            what = ('the daemon would have exited (%s)' % r[1]) if r[1] in ('SystemExit', 'KeyboardInterrupt') else \
+                   ('through the XML-RPC handler: %r' % (r[1:],))
+            replay.update(kind='reread of a file that cannot be parsed was not answered with CANT_REREAD: ' + what,
+                          answer=repr(r))
             self.violation(replay)
             chk.dist('corrupt:other')
         return r
+
+
+def _show(t):
+    if t is None:
+        return '<file deleted>'
+    if isinstance(t, bytes):
+        try:
+            return t.decode('utf-8')
+        except UnicodeDecodeError:
+            return repr(t)
+    return t
 
 
 def run_reread(chk, wd):
@@ -550,6 +585,11 @@ class Update(object):
                 self.violation(replay, nofail=True)
                 return
         self.fresh = fresh
+        if out[0] == 'died':
+            replay.update(kind='supervisord would have exited (or answered HTTP 500) during `update`: ' + out[1],
+                          log=repr(run.log))
+            self.violation(replay)
+            return
         if out[0] == 'hung':
             replay.update(kind='update did not finish: a deferred RPC never completed', log=repr(run.log))
             self.violation(replay)
@@ -783,12 +823,19 @@ def run_update(chk, wd):
     up = Update(chk, wd)
     t0 = time.time()
     scs = c15_gen.update_scenarios_exhaustive(chk.tier)
+    def guarded(sc, seed):
+        try:
+            up.scenario(sc, seed)
+        except BaseException as e:
+            import traceback
+            up.violation({'kind': '%s escaped from the implementation while preparing or running `update`' % type(e).__name__,
+                          'scenario': sc, 'seed': seed, 'traceback': traceback.format_exc()[-3000:]})
     for i, sc in enumerate(scs):
-        up.scenario(sc, chk.seed + i)
+        guarded(sc, chk.seed + i)
     n_exh = len(scs)
     nrand = 120 if chk.tier == 'quick' else 3000
     for i in range(nrand):
-        up.scenario(c15_gen.random_update_scenario(chk.rng), chk.seed + 1000 + i)
+        guarded(c15_gen.random_update_scenario(chk.rng), chk.seed + 1000 + i)
     up.b.flush()
     chk.note('update: %d real do_update runs in %.1fs (%d scripted scenarios); %d recipe states not reached'
              % (up.n, time.time() - t0, n_exh, up.recipe_miss))
@@ -819,8 +866,15 @@ def finish_update(chk, up, results):
 
 def run(chk):
     proved = chk.prove('props/C15.v', gens=_gens())
-    with vlib.WorkDir('c15') as wd:
-        _run(chk, wd, proved)
+    try:
+        with vlib.WorkDir('c15') as wd:
+            _run(chk, wd, proved)
+    except BaseException as e:      # the check always ends through chk.finish(): exit 0 or 1
+        import traceback
+        chk.violation({'kind': 'check-machinery-or-implementation-exception (%s)' % type(e).__name__,
+                       'traceback': traceback.format_exc()[-4000:],
+                       'unchecked': 'the check could not complete, so the property is not shown to hold'},
+                      nofail=True, name='exception')
 
 
 def _run(chk, wd, proved):
